@@ -49,7 +49,7 @@ def full_view(mc, cfg):
     for S, v in QUERY:
         queries.append((S, v, tuple(sorted(x.name for x in mc.metador.query(S, v)))))
     schemas = tuple(sorted(str(k) for k in mc.metador.schemas.keys()))
-    return (uv["visit"], uv["rec"] == uv["visit"], uv["items"] == uv["visit"], uv["names"], uv["groups"], uv["probes"], tuple(metas), tuple(queries), schemas)
+    return (uv["visit"], uv["rec"] == uv["visit"], uv["items"] == uv["visit"], uv["names"], uv["groups"], uv["probes"], tuple(metas), tuple(queries), schemas, uv["nav"])
 
 
 def _viol(cfg, hist, op, kind, detail, pair):
@@ -62,7 +62,7 @@ def _viol(cfg, hist, op, kind, detail, pair):
 
 
 def _diff(a, b):
-    names = ["visit-dump", "keys-recursion-consistent", "items-consistent", "visit-names", "group-listings", "probes", "metadata", "queries", "schemas"]
+    names = ["visit-dump", "keys-recursion-consistent", "items-consistent", "visit-names", "group-listings", "probes", "metadata", "queries", "schemas", "navigation (parent listings, early-exit visits)"]
     for nm, x, y in zip(names, a, b):
         if x != y:
             sx, sy = str(x), str(y)
